@@ -193,6 +193,18 @@ impl Prop for C05 {
                 sink(Case::new("base-expansion", format!("{n}|{p}")));
             }
         }
+        // two unit words that also read as one word when the blank between them is left out
+        // (`m s` / `ms`, `m in` / `min`): both spellings, in both orders, in one thread
+        for (a, b) in [("m", "s"), ("m", "in"), ("m", "m"), ("m", "l"), ("m", "g"), ("m", "N"), ("T", "m"), ("c", "d"), ("k", "g"), ("M", "W"), ("h", "a")] {
+            for pw in ["", "^2", "^-1"] {
+                let spaced = serde_json::json!([format!("3 {a} {b}{pw}"), format!("{a}*{b}{pw}"), 3]);
+                let glued = serde_json::json!([format!("3 {a}{b}{pw}"), format!("{a}{b}{pw}"), 3]);
+                let star = serde_json::json!([format!("5 {a}*{b}{pw}"), format!("{a}*{b}{pw}"), 5]);
+                sink(Case::with("blank-or-glued", format!("[{a} {b}{pw}, {a}{b}{pw}]"), serde_json::json!([spaced, glued])));
+                sink(Case::with("blank-or-glued", format!("[{a}{b}{pw}, {a} {b}{pw}]"), serde_json::json!([glued, spaced])));
+                sink(Case::with("blank-or-glued", format!("[{a}{b}{pw}, {a}*{b}{pw}, {a} {b}{pw}]"), serde_json::json!([glued, star, spaced])));
+            }
+        }
         // one unit under two different prefixes in one expression: refused, or read as spelled
         for u in ["m", "s", "g", "N", "J", "W", "V", "B"] {
             for (a, b) in [("k", ""), ("", "k"), ("m", "k"), ("k", "m"), ("M", "k"), ("c", "m"), ("m", ""), ("", "c"), ("G", "M")] {
@@ -239,6 +251,32 @@ impl Prop for C05 {
         let w = &case.key;
         if case.fam.starts_with("expr") {
             return check_expr(env, w);
+        }
+        if case.fam == "blank-or-glued" {
+            // a short history in one thread: two unit words separated by a blank are a product, the
+            // same letters without the blank are one word; what either means must not depend on
+            // which of them this thread has seen before
+            let mut h = 0u64;
+            for item in case.data.as_array().unwrap() {
+                let (q, expr, x) = (item[0].as_str().unwrap(), item[1].as_str().unwrap(), item[2].as_i64().unwrap());
+                let Some(m) = units::unit_expr(expr) else { return Verdict::DontCare("no reference reading") };
+                let want = BigRational::from_integer(x.into()) * &m.scale;
+                match crate::obs::eval_one(env.db(), q) {
+                    Ok(crate::obs::Res::Ok { value, unit, .. }) => match units::si_of(&value, &unit, false) {
+                        Ok(si) if si.value == want && si.dim == m.dim => h = h.wrapping_mul(31).wrapping_add(fw::hash_str(&si.short())),
+                        Ok(si) => return fw::fail("blank-or-glued:meaning", format!("history {w}: `{q}` means {x} [{expr}] = SI {want} [{}], got {}", tables::dim_text(&m.dim), si.short())),
+                        Err(e) => return crate::units::table_verdict(format!("{q}: {e}")),
+                    },
+                    Ok(crate::obs::Res::Err { msg, .. }) => {
+                        if crate::obs::rejected_unit_word(env.db(), q).is_some() {
+                            return Verdict::DontCare("unit word rejected by the tool");
+                        }
+                        return fw::fail("blank-or-glued:refused", format!("history {w}: `{q}` refused: {msg}"));
+                    }
+                    Err(why) => return fw::fail("results:blank-or-glued", format!("history {w}: {q}: {why}")),
+                }
+            }
+            return fw::pass(true, h);
         }
         if case.fam == "base-expansion" {
             let (name, p) = w.split_once('|').unwrap();
